@@ -18,6 +18,8 @@
 #include <algorithm>
 #include <cmath>
 #include <cstdio>
+#include <deque>
+#include <list>
 #include <map>
 #include <set>
 #include <stdexcept>
@@ -1059,6 +1061,91 @@ struct Engine {
                     semanticNoop = true;
                     facts.tag("noop_readd");
                 }
+            }
+            return "";
+        }
+        if (k == "xcopy") {
+            // value semantics inside a history: `op xcopy how rot rev cont`
+            //   0 copy-construct, copy-assign to a third object, assign back   1 self-assignment (through a reference)
+            //   2 move out and move back                                        3 rebuilt through the container constructor from the
+            //     model's edges in a generated order / orientation, a third of the pairs listed twice (same label / weight; a multiplicity split in two)
+            // the abstract value must be what it was (the neighbour order may change); later mutators then work on the new object
+            long long how = ((op.i(0) % 4) + 4) % 4;
+            if (how == 3 && m.anyDup()) { skipped = true; return ""; }
+            facts.tag(how == 0 ? "copy_roundtrip" : how == 1 ? "self_assignment" : how == 2 ? "move_roundtrip" : "rebuilt_by_container_constructor");
+            if (how == 0) {
+                tr("G t(g); u = t; g = u");
+                call([&] {
+                    G t(g);
+                    G u(0);
+                    u = t;
+                    g = u;
+                });
+            } else if (how == 1) {
+                tr("g = g");
+                call([&] {
+                    G &r = g;
+                    g = r;
+                });
+            } else if (how == 2) {
+                tr("G t(std::move(g)); g = std::move(t)");
+                call([&] {
+                    G t(std::move(g));
+                    g = std::move(t);
+                });
+            } else {
+                typedef typename std::conditional<T::nolabel, BaseGraph::Edge, BaseGraph::LabeledEdge<L>>::type Entry;
+                std::vector<Entry> entries, twice;
+                std::vector<std::pair<UPair, MVal>> es(m.e.begin(), m.e.end());
+                if (!es.empty())
+                    std::rotate(es.begin(), es.begin() + (long)(op.u(1) % es.size()), es.end());
+                if (op.u(2) & 1)
+                    std::reverse(es.begin(), es.end());
+                size_t idx = 0;
+                for (auto &p : es) {
+                    unsigned a = p.first.first, b = p.first.second;
+                    if (!T::directed && ((idx + op.u(2)) % 2))
+                        std::swap(a, b);
+                    // the second listing of a pair: the same ordered pair when directed, the other orientation when undirected
+                    unsigned a2 = T::directed ? a : b, b2 = T::directed ? b : a;
+                    bool dup = (idx + op.u(1)) % 3 == 0;
+                    if constexpr (T::nolabel) {
+                        entries.emplace_back(a, b);
+                        if (dup)
+                            twice.emplace_back(a2, b2);
+                    } else if constexpr (T::fam == 'L') {
+                        entries.emplace_back(a, b, mkLabel(p.second.k));
+                        if (dup)
+                            twice.emplace_back(a2, b2, mkLabel(p.second.k));
+                    } else if constexpr (T::fam == 'M') {
+                        if (dup && p.second.k >= 2) {
+                            entries.emplace_back(a, b, (unsigned)(p.second.k - 1));
+                            twice.emplace_back(a2, b2, 1u);
+                        } else
+                            entries.emplace_back(a, b, (unsigned)p.second.k);
+                    } else {
+                        entries.emplace_back(a, b, p.second.w);
+                        if (dup)
+                            twice.emplace_back(a2, b2, p.second.w);
+                        absWeightSum += 2 * std::fabs((long double)p.second.w);
+                    }
+                    ++idx;
+                }
+                entries.insert(entries.end(), twice.begin(), twice.end());
+                extraUpdates += entries.size();
+                unsigned cont = (unsigned)(op.u(3) % 3);
+                tr(std::string("g = G(") + (cont == 0 ? "vector" : cont == 1 ? "list" : "deque") + " of " + std::to_string(entries.size()) + " edges); resize");
+                call([&] {
+                    if (cont == 0)
+                        g = G(entries);
+                    else if (cont == 1)
+                        g = G(std::list<Entry>(entries.begin(), entries.end()));
+                    else
+                        g = G(std::deque<Entry>(entries.begin(), entries.end()));
+                    if (g.getSize() < m.n)
+                        g.resize(m.n);
+                });
+                // the constructed graph has 1 + largest used index vertices: never more than before
             }
             return "";
         }
